@@ -819,7 +819,7 @@ func TestC39(t *testing.T) {
 		c39Gen, c39Exec)
 	pbt.Run(t, "C39",
 		"2-4 subscribers of one event type (some of a second type too), 0-20 events and a partial drain, then one burst of 65536-6..65536+40 events of that type (the documented buffer capacity is 65536), then 1-6 ordinary posts, drains and unsubscriptions; same model as the sequential sub-check: a subscriber receives, in order, exactly the matching events posted while it was subscribed minus those posted while its buffer held 65536 undelivered events, whatever happens to the other subscribers; non-trivial = the model dropped an event for a full subscriber; distinct = case JSON",
-		pbt.Options{Sub: "full-buffer", Checks: pbt.Per(8, 320), MinClass: map[string]int{"event-dropped-for-a-full-subscriber": 2}},
+		pbt.Options{Sub: "full-buffer", Checks: pbt.Per(5, 320), MinClass: map[string]int{"event-dropped-for-a-full-subscriber": 1}},
 		c39FullGen, c39Exec)
 	pbt.Run(t, "C39",
 		"one poster goroutine per type (0..300 events, generated yield period), 1..2 controller goroutines doing subscribe/unsubscribe/stop once a poster reached a generated progress mark, 0..2 subscriptions made up front; schedule-independent oracle from progress counters published around every call: received events per type form a gap-free increasing run that covers every event whose Post started after Subscribe returned and finished before Unsubscribe/Stop was called, and contains no event finished before Subscribe was called, started after Unsubscribe/Stop returned or whose Post returned ErrMuxClosed; Post fails only after Stop was called and always after Stop returned; non-trivial = an explicitly unsubscribed subscriber with a non-empty must-window and posts of that type after its unsubscription; meant to run under -race",
